@@ -124,7 +124,7 @@ func VerifC14_q_setupCleanInverse() {
 	}
 }
 
-// BOUND: prior NAT table with 0..2 stale KUBE-HP-* chains (one referenced from KUBE-HOSTPORTS), a foreign chain and rule; full synchronisation for a set of 0..3 ports of two pods; run twice
+// BOUND: prior NAT table with 0..2 stale KUBE-HP-* chains (one referenced from KUBE-HOSTPORTS), optionally the chain of one of the synchronised ports with the rules of the pod's former address, a foreign chain and rule; full synchronisation for a set of 0..3 ports of two pods; run twice
 func VerifC14_q_fullSyncConverges() {
 	fake := iptablestesting.NewFakeIPTables()
 	h := portmapping.VerifNewHandler(fake)
@@ -139,6 +139,16 @@ func VerifC14_q_fullSyncConverges() {
 			return
 		}
 		if err := h.SetupPortMapping(stale[:nStale]); err != nil {
+			return
+		}
+	}
+	// the chain of a port that is synchronised below may exist already with other contents: the pod "a" was there with
+	// another address (it was re-created while galaxy was down)
+	if nondetBool() {
+		if err := h.EnsureBasicRule(); err != nil {
+			return
+		}
+		if err := h.SetupPortMapping([]k8s.Port{{HostPort: 39051, ContainerPort: 8080, Protocol: "tcp", PodName: "a", PodIP: "10.0.0.77"}}); err != nil {
 			return
 		}
 	}
@@ -157,7 +167,7 @@ func VerifC14_q_fullSyncConverges() {
 	}
 	first := vNat(fake)
 	verifReach("synced")
-	verifAssert("C14/full-sync-drops-stale", !strings.Contains(first, "10.0.0.99") && !strings.Contains(first, "10.0.0.98") && !strings.Contains(first, "gone hostport"), "a stale galaxy chain or rule survived the full synchronisation")
+	verifAssert("C14/full-sync-drops-stale", !strings.Contains(first, "10.0.0.99") && !strings.Contains(first, "10.0.0.98") && !strings.Contains(first, "10.0.0.77") && !strings.Contains(first, "gone hostport"), "a stale galaxy chain or rule survived the full synchronisation")
 	verifAssert("C14/full-sync-keeps-foreign", strings.Contains(first, "FOREIGN-CHAIN -s 192.168.0.0/16 -j RETURN") && strings.Contains(first, "-A POSTROUTING -s 172.16.0.0/12 -j MASQUERADE"), "a foreign chain or rule was modified by the full synchronisation")
 	nDnat := strings.Count(first, "-j DNAT")
 	verifAssert("C14/full-sync-exact", nDnat == len(want), "the number of DNAT rules after a full synchronisation differs from the number of given ports")
